@@ -116,6 +116,10 @@ class DirHandler(BaseHandler):
         except OSError:
             return False
 
+        if not stat.S_ISREG(statval[stat.ST_MODE]):
+            # Something else stands where the cache file goes.
+            return False
+
         if time.time() - statval[stat.ST_MTIME] < self.cachetime:
             try:
                 with self.vfs.open(self.cachename, "rb") as fp:
@@ -143,6 +147,10 @@ class DirHandler(BaseHandler):
             # Don't resave the cache.
             return
         if not self.vfs.iswritable(self.cachename):
+            return
+        if self.vfs.exists(self.cachename) and not self.vfs.isfile(self.cachename):
+            # Only ever (re)write a regular file: opening a FIFO of that
+            # name would wait for a reader forever.
             return
         try:
             with self.vfs.open(self.cachename, "wb") as fp:
